@@ -85,7 +85,8 @@ def metaToFloat (nc : NumCodec) (how : Narrow) (f : Fmt) : J → Option Nat
     else match unhexStr s with
       | some bs => if bs.length == f.bits / 8 then some (leNat bs.reverse) else none
       | none => none
-  | .num t => (nc.rd t).map (narrow how f)
+  -- (repaired) a JSON number is finite: one whose nearest value of the format is infinite is not representable
+  | .num t => (nc.rd t).bind (fun b => let r := narrow how f b; if f.isFinite r then some r else none)
   | _ => none
 
 /-- `FillValueMetadataV3::as_bytes`: an array of integers in `[0, 255]` -/
